@@ -211,26 +211,42 @@ func cmdProp(args []string) {
 		if len(a.fail) == 0 {
 			continue
 		}
+		var unknownFails []*Obligation
 		for _, ob := range a.fail {
 			kf := matchKnown(known, *id, ob)
 			if kf != nil {
 				knownLines = append(knownLines, fmt.Sprintf("KNOWN-FINDING: property=%s %s: %s", *id, ob.Name, kf.What))
 				continue
 			}
-			violations++
-			failedNames = append(failedNames, ob.Name)
-			info := map[string]interface{}{
-				"property": *id, "obligation": ob.Name, "function": ob.Func, "clause": ob.Src, "solver_result": ob.Result,
-				"solver": ob.Solver, "solver_output": ob.Model, "path_trace": ob.Trace, "smt_script": ob.Script,
-			}
-			rp := writeReplay(replayDir, ob.Name, info)
-			suffix := " no-failing-input-found"
-			if msg, ok := e.tryReplay(ob, *id, *repo, *verif, rp); ok {
-				suffix = ""
-				_ = msg
-			}
-			fmt.Printf("VIOLATION property=%s replay=%s obligation=%s result=%s%s\n", *id, rp, ob.Name, ob.Result, suffix)
+			unknownFails = append(unknownFails, ob)
 		}
+		if len(unknownFails) == 0 {
+			continue
+		}
+		violations++
+		failedNames = append(failedNames, n)
+		ob := unknownFails[0]
+		for _, o2 := range unknownFails {
+			if o2.Result == "sat" { // prefer an instance with a model
+				ob = o2
+				break
+			}
+		}
+		var traces []string
+		for _, o2 := range unknownFails {
+			traces = append(traces, strings.Join(o2.Trace, " "))
+		}
+		info := map[string]interface{}{
+			"property": *id, "obligation": ob.Name, "function": ob.Func, "clause": ob.Src, "solver_result": ob.Result,
+			"solver": ob.Solver, "solver_output": ob.Model, "path_trace": ob.Trace, "smt_script": ob.Script,
+			"failing_instances": len(unknownFails), "failing_paths": traces,
+		}
+		rp := writeReplay(replayDir, ob.Name, info)
+		suffix := " no-failing-input-found"
+		if _, ok := e.tryReplay(ob, *id, *repo, *verif, rp); ok {
+			suffix = ""
+		}
+		fmt.Printf("VIOLATION property=%s replay=%s obligation=%s result=%s instances=%d%s\n", *id, rp, ob.Name, ob.Result, len(unknownFails), suffix)
 	}
 	for _, er := range engineErrs {
 		violations++
